@@ -254,6 +254,7 @@ def live_binding(ctx):
 
 @PROP.obligation('C10.threshold', canaries=[
     mut.replace_expr('transactions', 'Input.__init__', 'script.keys or not sigs_required', 'True', 'threshold argument replaced by the default of a parsed script'),
+    mut.replace_stmt('transactions', 'Input.__init__', 'if script.keys or not sigs_required:', 'sigs_required = script.sigs_required or sigs_required', 'threshold argument only a fallback for the never-empty threshold of the parsed script'),
     mut.replace_expr('transactions', 'Input.verify', 'sigs_verified < self.sigs_required', 'sigs_verified < 1', 'one signature suffices'),
 ])
 def threshold(ctx):
@@ -263,25 +264,37 @@ def threshold(ctx):
     signatures verified and fails when keys or signatures run out."""
     q = 'transactions:Input.__init__'
     fn = ctx.repo.func(q)
-    asg = [n for n in ast.walk(fn) if isinstance(n, ast.Assign) and norm(n.targets[0]) == 'sigs_required' and norm(n.value) == 'script.sigs_required']
-    if not asg:
-        ctx.undecided('Input.__init__: threshold taken from the parsed script not found')
-    # enclosing ifs inside the unlocking-script block
-    parents = {}
-    for p in ast.walk(fn):
-        for c in ast.iter_child_nodes(p):
-            parents[c] = p
-    conds = []
-    cur = asg[0]
-    while cur in parents and parents[cur] is not fn:
-        cur = parents[cur]
-        if isinstance(cur, ast.If):
-            conds.append(norm(cur.test))
-    ctx.saw('sigs_required = script.sigs_required under %s' % conds)
-    guarded = any(('script.keys' in c or 'script.redeemscript' in c or 'not sigs_required' in c) for c in conds)
-    if not guarded:
-        ctx.violate(q, 'the sigs_required argument is unconditionally replaced by script.sigs_required, which is 1 for a script without keys', asg[0],
-                    'a raw 2-of-2 P2SH-P2WSH transaction imported into a cosigner wallet gets sigs_required 1: verify() is True with a single signature')
+    blk = [n for n in fn.body if isinstance(n, ast.If) and 'self.unlocking_script' in norm(n.test) and any(isinstance(c, ast.Call) and norm(c.func) == 'Script.parse_bytes' for c in ast.walk(n))]
+    if len(blk) != 1:
+        ctx.undecided('Input.__init__: the block that parses a given unlocking script was not found')
+    SC = ('var', 'parsed_script')
+    n_sc = 0
+    # (caller's sigs_required, keys found in the scriptSig, threshold the parsed script reports, expected outcome)
+    for given, has_keys, script_m, want in ((2, False, 1, 2), (3, False, 1, 3), (None, False, 1, 1), (None, True, 2, 2), (1, True, 2, 2), (2, True, 2, 2)):
+        hooks = {'Script.parse_bytes': lambda it, a, kw, st, node: S(SC)}
+        it = Interp(ctx.repo, 'transactions', hooks=hooks, self_cls='transactions:Input', decide=lambda t: True if t == ('attr', SELF, 'unlocking_script') else None)
+        st = State(env={'self': S(SELF), 'sigs_required': given, 'signatures': None, 'keys': None, 'strict': True})
+        st.heap[('attr', SELF, 'unlocking_script')] = b'\x22\x00\x20' + bytes(range(32))      # the push of a witness program
+        st.heap[('attr', SELF, 'script_type')] = 'p2sh_p2wsh'
+        st.heap[('attr', SC, 'keys')] = [S(('var', 'k1')), S(('var', 'k2'))] if has_keys else []
+        st.heap[('attr', SC, 'signatures')] = []
+        st.heap[('attr', SC, 'sigs_required')] = script_m
+        st.heap[('attr', SC, 'script_types')] = ['p2sh_p2wsh']
+        it.frames.append([])
+        try:
+            end = it.exec_block(blk, st)
+        except AnalysisError as e:
+            ctx.undecided('Input.__init__: unlocking-script block not evaluable: %s' % str(e)[:100])
+        it.frames.pop()
+        if end is None:
+            ctx.undecided('Input.__init__: unlocking-script block raises in the scenario')
+        got = end.env.get('sigs_required')
+        got = got if not isinstance(got, S) else show(term(got))
+        n_sc += 1
+        ctx.saw('sigs_required=%s given, scriptSig %s (its parsed threshold %d) -> sigs_required %s' % (given, 'with keys' if has_keys else 'without keys', script_m, got))
+        ctx.require(got == want, q, 'sigs_required=%s given, unlocking script %s keys: the input continues with sigs_required=%s, expected %s' % (given, 'with' if has_keys else 'WITHOUT', got, want), blk[0],
+                    'an unsigned 2-of-3 P2SH-P2WSH input handed to a cosigner wallet (its scriptSig is only the push of the witness program) is rebuilt as 1-of-3: verify() is True and send() broadcasts after ONE signature')
+    ctx.floor(n_sc, 6, 'threshold scenarios')
     q = 'transactions:Input.update_scripts'
     fn = ctx.repo.func(q)
     nt = [norm(n.value) for n in ast.walk(fn) if isinstance(n, ast.Assign) and norm(n.targets[0]) == 'self.sigs_required']
